@@ -12,6 +12,7 @@ import itertools
 import json
 import random
 
+import aritylib
 import vf
 
 
@@ -72,12 +73,17 @@ def run(c):
     rng = random.Random(c.seed)
     if c.replay:
         rp = json.load(open(c.replay))
+        if rp.get("kind") == "arity":
+            aritylib.family_subrun(c, "C11", ["monoid.Tuple"])
+            return
         _, out = c.harness("tcm", [rp["case"]], name="replay")
         rej = c.validate(out, "TraceMonoid", max_rejects=1)
         if rej:
             c.report("C11:" + classify(rej[0]), dict(case=rp["case"]), "replayed: %s" % json.dumps({k: v for k, v in rej[0]["line"].items() if k in ("e", "mx", "impl", "out")})[:300])
         return
     c.tlc_expect_clean("MCMonoid", "MCMonoid")
+    # the TupleN instances of this typeclass at every arity 2..21 (position-tagged arguments, judged by Arity.tla)
+    aritylib.family_subrun(c, "C11", ["monoid.Tuple"])
     u = universes(rng)
     order = ["endo", "sg.endo", "dual(endo)"] + [m for m in u if "endo" not in m]
     cases = []
